@@ -873,3 +873,74 @@ def c10_limits(tr, out, case):
 
 def _rq(r):
     return {k: r[k] for k in ("seq", "tick", "kind", "o", "t", "strategy", "lookup", "force", "execute", "trade_params", "trade_status")}
+
+
+# -------------------------------------------------------------------------------------------
+# C01 exposure limits: decision rule at the request boundary
+# -------------------------------------------------------------------------------------------
+
+TOL_EXPOSURE = 0.011
+
+
+def c01_decisions(tr, out, case):
+    limits = {s["name"]: s.get("limits", {}) for s in case.get("strategies", [])}
+    packaged = set()
+    for p in tr.packages:
+        if p["kind"] == "PLACE":
+            packaged.update(p["orders"])
+    for r in tr.requests:
+        if r["kind"] not in ("PLACE", "REPLACE") or r.get("position") is None or r["force"]:
+            continue
+        if r["kind"] == "PLACE" and not r["execute"]:
+            continue
+        lim = limits.get(r["strategy"], {})
+        cand = dict(r["candidate"])
+        position = [dict(v) for v in r["position"]]
+        if r["kind"] == "REPLACE":
+            if r.get("exc"):
+                continue
+            # the order as it will exist afterwards: its remainder at the NEW price; the old bet keeps its matched part
+            if cand["otype"] != "LIMIT":
+                continue  # a limit-on-close replace moves the same liability to another price: exposure unchanged
+            for v in position:
+                if v["o"] == r["o"]:
+                    v["complete"] = True
+            rem = cand["remaining"] or 0.0
+            cand = dict(cand, status="EXECUTABLE", complete=False, price=r["new_price"], size=rem, remaining=rem, matched=0.0, avg=0.0)
+        else:
+            cand = dict(cand, status="EXECUTABLE", complete=False, remaining=cand["size"] if cand["otype"] == "LIMIT" else 0.0, matched=0.0)
+            if any(v["o"] == r["o"] for v in position):
+                continue  # duplicate placement of an order already in the blotter: refused as an error, not an exposure decision
+        accepted = r.get("result") is True
+        sel = tuple(cand["sel"])
+        by_sel = collections.defaultdict(list)
+        for v in position:
+            by_sel[tuple(v["sel"])].append(v)
+        by_sel[sel].append(cand)
+        w, l = selection_wpp(by_sel[sel])
+        affected = -l if cand["side"] == "BACK" else -w
+        oexp = order_exposure(cand)
+        book = r["book"]
+        tags = {"kind": r["kind"], "otype": cand["otype"], "side": cand["side"]}
+        out.rule("decision")
+        out.d("c01:%s:%s:%s:%s:%s:%d:%s" % (r["kind"], cand["otype"], cand["side"], "".join("1" if lim.get(k) is not None else "0" for k in ("order", "selection", "market")), accepted, min(len(position), 5), cand["ladder"]))
+        if accepted:
+            if lim.get("order") is not None and oexp > lim["order"] + TOL_EXPOSURE:
+                out.v("accepted-beyond-limit", dict(tags, limit="order"), request=_rq(r), exposure=oexp, limit=lim["order"], candidate=cand)
+            if lim.get("selection") is not None and affected > lim["selection"] + TOL_EXPOSURE:
+                out.v("accepted-beyond-limit", dict(tags, limit="selection"), request=_rq(r), exposure=affected, limit=lim["selection"], candidate=cand, position=position)
+            if lim.get("market") is not None and book and book["number_of_winners"] is not None:
+                per = {s_: selection_wpp(vs) for s_, vs in by_sel.items()}
+                worst = -market_worst_case(per, book["number_of_winners"], book["number_of_active_runners"])
+                out.rule("market-decision")
+                if worst > lim["market"] + TOL_EXPOSURE * max(1, len(per)):
+                    out.v("accepted-beyond-limit", dict(tags, limit="market"), request=_rq(r), exposure=worst, limit=lim["market"], candidate=cand, position=position, book=book)
+        elif r["kind"] == "PLACE" and r.get("result") is False:
+            out.rule("refused")
+            a = r["after"]
+            if a["status"] != "VIOLATION" or a["in_blotter"] or r["o"] in packaged:
+                out.v("refused-order-not-marked-or-sent", tags, request=_rq(r), after=a, packaged=r["o"] in packaged)
+    # refused orders never reach a package
+    for p in tr.packages:
+        for o in p["orders"]:
+            out.rule("package-order")
